@@ -210,7 +210,16 @@ func EvalWith(w *WF, pre map[string][]byte) *Expect {
 					lin = &Lin{Source: true, Params: map[string]string{}, Tags: map[string]string{}, OutFiles: map[string]string{}, Upstream: map[string]*Lin{}}
 					ex.Lins[Abs(f)] = lin
 				}
-				st.Items = append(st.Items, Item{Path: f, Content: []byte(w.Sources[f]), Lin: lin})
+				it := Item{Path: f, Content: []byte(w.Sources[f]), Lin: lin}
+				if b, ok := ex.Files[Abs(f)]; ok {
+					it.Content = b // a file produced by the first workflow of the program
+				}
+				if n.Stage > 0 && len(ex.Attached[Abs(f)]) > 0 {
+					// the first workflow has returned: what its tagging components
+					// attached is in the file's record on disk
+					it.Tags = copyTags(ex.Attached[Abs(f)])
+				}
+				st.Items = append(st.Items, it)
 			}
 			ex.Streams[n.Name+".out"] = st
 		case KParamSrc:
